@@ -489,10 +489,26 @@ func expand(op Op) []Op {
 // lentOp: the op passes the caller's KVs slice to the library.
 func lentOp(op Op) bool { return op.Op == "attrs" || op.Op == "event" || op.Op == "error" }
 
+// sharedOp: the op's argument (attribute slice / Link value) can be given to
+// the sibling span as well.
+func sharedOp(op Op) bool { return lentOp(op) || op.Op == "link" }
+
 // againOp is the second call the primary span receives with the same slice
 // object: as far as the model is concerned just another call with the case's
 // original key-values.
 func againOp(op Op) (Op, bool) {
+	if op.Op == "link" {
+		// the Link value / its Attributes slice used once more
+		switch op.Again {
+		case "attrs":
+			return Op{Op: "attrs", KVs: op.Link.Attrs}, true
+		case "event":
+			return Op{Op: "event", Text: "again", KVs: op.Link.Attrs}, true
+		case "link":
+			return Op{Op: "link", Link: op.Link}, true
+		}
+		return Op{}, false
+	}
 	if !lentOp(op) {
 		return Op{}, false
 	}
@@ -518,8 +534,13 @@ func sibOp(op Op) Op {
 // runner.
 func sibCase(c Case) Case {
 	s := Case{Limits: c.Sib, Name: "sibling", Kind: 1}
+	if c.StartLinksShared {
+		for i := range c.StartLinks {
+			s.Ops = append(s.Ops, Op{Op: "link", Link: &c.StartLinks[i]})
+		}
+	}
 	for _, op := range c.Ops {
-		if lentOp(op) && op.Share != 0 {
+		if sharedOp(op) && op.Share != 0 {
 			s.Ops = append(s.Ops, sibOp(op))
 		}
 	}
